@@ -23,6 +23,8 @@ type vAct struct {
 	Req  vReqSpec `json:"req"`
 	Ft   int64    `json:"ft"`
 	Addr string   `json:"addr"`
+	// burst: these auth requests are sent concurrently on the same connection
+	Burst []vReqSpec `json:"burst"`
 }
 
 type vHist struct {
@@ -54,6 +56,16 @@ func (cl *vClient) perform(a vAct) {
 	case "udp":
 		cl.doDgram(a.Addr)
 		cl.barrier()
+	case "burst":
+		var wg sync.WaitGroup
+		for _, rs := range a.Burst {
+			wg.Add(1)
+			go func(rs vReqSpec) {
+				defer wg.Done()
+				_, _, _, _ = cl.doReq(rs, false)
+			}(rs)
+		}
+		wg.Wait()
 	case "close":
 		cl.doClose()
 	}
@@ -111,17 +123,22 @@ func vRunHistory(h vHist) (out vHistOut) {
 
 // vVerdictC01 is the property's own predicate on the boundary log (no model involved).
 func vVerdictC01(h vHist, log []vEntry) (bool, string) {
-	accepted := map[int]bool{}   // connection passed auth (authenticator said yes on it)
-	acceptedAt := map[int]int{}  // seq of the accepting verdict
+	accepted := map[int]bool{}  // connection passed auth (authenticator said yes on it)
+	acceptedAt := map[int]int{} // seq of the accepting verdict
 	closedC := map[int]bool{}
 	onT := map[string]int{}
 	onF := map[string]int{}
 	conn := map[string]int{}
 	idOf := map[int]string{}
 	pendingStream := map[string]bool{}
+	inCall := map[int]bool{}
 	for _, x := range log {
 		switch x.K {
 		case "authcall":
+			if inCall[x.C] {
+				return false, fmt.Sprintf("seq %d: two requests of connection %d are inside Authenticate at once (authMutex)", x.S, x.C)
+			}
+			inCall[x.C] = true
 			if x.C < 0 {
 				return false, fmt.Sprintf("seq %d: authenticator called for an unknown connection", x.S)
 			}
@@ -129,6 +146,7 @@ func vVerdictC01(h vHist, log []vEntry) (bool, string) {
 				return false, fmt.Sprintf("seq %d: authenticator re-evaluated on already authenticated connection %d", x.S, x.C)
 			}
 		case "authret":
+			inCall[x.C] = false
 			if x.OK {
 				accepted[x.C] = true
 				acceptedAt[x.C] = x.S
@@ -246,4 +264,3 @@ func TestVerifC01(t *testing.T) {
 		w.Emit(o)
 	}
 }
-
